@@ -88,6 +88,23 @@ inductive Res
   | watches (l : List Wid)
   deriving DecidableEq, Repr
 
+/-- One XR as the collector's List returns it. The state fields are everything a collector
+could be tempted to filter on; the code under test looks at `refs` only, and the theorems
+quantify over all of them. A reference is `some g` (kind number `g`; another version of a kind
+is another number) or `none` (empty kind or apiVersion: it names no watched kind). Duplicates
+and empty lists are allowed. -/
+structure XR where
+  deleting : Bool            -- deletionTimestamp set, finalizer pending
+  paused : Bool              -- crossplane.io/paused
+  hasCompositionRef : Bool
+  ready : Bool
+  synced : Bool
+  refs : List (Option Nat)   -- spec.resourceRefs
+  deriving DecidableEq, Repr
+
+/-- the kinds the listed XRs reference: `used` of GarbageCollectWatchesNow -/
+def refsOf (xrs : List XR) : List Nat := (xrs.map (·.refs)).flatMap (fun l => l.filterMap id)
+
 inductive Op
   | start (n : Nat)
   | stop (n : Nat)
@@ -95,7 +112,7 @@ inductive Op
   | startWatches (n : Nat) (ws : List Wid)
   | stopWatches (n : Nat) (ws : List Wid)
   | getWatches (n : Nat)
-  | gc (n : Nat) (refs : List Nat)      -- GarbageCollectWatchesNow; refs = kinds referenced by the listed XRs
+  | gc (n : Nat) (xrs : List XR)        -- GarbageCollectWatchesNow; xrs = what its List of the XRs returns
   | removeInformer (g : Nat)
   deriving DecidableEq, Repr
 
@@ -340,8 +357,8 @@ def next (cfg : Cfg) (s : Sys) (i : Nat) (t : Thread) (ch : Choice) : Option (Pc
     | .startWatches n ws => acquire s i (.swLU (aget n s.ctrls) ws)
     | .stopWatches n ws => acquire s i (.xwLU (aget n s.ctrls) ws)
     | .getWatches n => acquire s i (.gwLU (aget n s.ctrls))
-    | .gc n refs =>                               -- gc.engine.GetCached().List(ctx, l)
-      if ch.fault then some (.done .err, .nop) else some (.gc1 n refs, .nop)
+    | .gc n xrs =>                                -- gc.engine.GetCached().List(ctx, l); used := every ref of every item
+      if ch.fault then some (.done .err, .nop) else some (.gc1 n (refsOf xrs), .nop)
     | .removeInformer g => some (.done .ok, .rmInformer g)
   | .relE r => some (.done r, .nop)
   | .relCE cid r => some (.relE r, .nop)
